@@ -4221,3 +4221,137 @@ func ruleTokenRatioDefaulted(c *eng.Ctx) {
 		c.Ok(R, "rag#ratio", token.NoPos, "the field is never an operand of a division or multiplication as it stands")
 	}
 }
+
+// ---------------------------------------------------------------------------------------------------------------
+// R13.11 an overlap that has to be cut down keeps its end.
+
+// R13.11 [C13]
+func ruleTruncatedOverlapKeepsEnd(c *eng.Ctx) {
+	const R = "R13.11-TRUNCATED-OVERLAP-KEEPS-END"
+	c.Rule(R, "rag.(*OverlapGenerator).truncateOverlap never hands on a prefix of the overlap it was given: no value derived from its parameter by a slice expression with an upper bound (s[:k], directly or in a helper that returns one) reaches its result, and a loop over the overlap's sentences that can stop early counts down from the last sentence. The overlap is the end of the previous chunk; cut at the front it is still a suffix of that chunk, cut at the back it is a piece from the middle", 2, 0)
+	fn := c.P.Func("rag.(*OverlapGenerator).truncateOverlap")
+	if fn == nil {
+		c.Undec(R, "rag.(*OverlapGenerator).truncateOverlap", token.NoPos, "anchor not found")
+		return
+	}
+	if len(fn.Params) < 2 {
+		c.Ok(R, eng.FuncName(fn)+"#prefix", fn.Pos(), "not evaluated: the function has no overlap parameter")
+		return
+	}
+	par := ssa.Value(fn.Params[1])
+	// (1) prefix slices of the parameter, in the function or in a helper that is handed the parameter
+	var bad []string
+	prefixOf := func(h *ssa.Function, v ssa.Value) (token.Pos, bool) {
+		pos, found := token.NoPos, false
+		eng.Instrs(h, false, func(in ssa.Instruction) {
+			sl, ok := in.(*ssa.Slice)
+			if !ok || sl.High == nil || sl.X != v {
+				return
+			}
+			if _, isStr := sl.X.Type().Underlying().(*types.Basic); !isStr {
+				return
+			}
+			// s[a:len(s)] is a suffix
+			if call, ok := sl.High.(*ssa.Call); ok {
+				if bi, ok := call.Call.Value.(*ssa.Builtin); ok && bi.Name() == "len" {
+					return
+				}
+			}
+			pos, found = sl.Pos(), true
+		})
+		return pos, found
+	}
+	if pos, ok := prefixOf(fn, par); ok {
+		bad = append(bad, "the overlap is cut with an upper bound at "+c.P.Pos(pos))
+	}
+	eng.Instrs(fn, false, func(in ssa.Instruction) {
+		call, ok := in.(*ssa.Call)
+		if !ok {
+			return
+		}
+		cal := eng.StaticCallee(call)
+		if cal == nil || !eng.InModule(cal) || cal.Blocks == nil {
+			return
+		}
+		for i, a := range eng.ArgsWithRecv(call) {
+			if a != par || i >= len(cal.Params) {
+				continue
+			}
+			if pos, ok := prefixOf(cal, cal.Params[i]); ok {
+				// the helper's prefix must reach its result to matter
+				for _, r := range eng.Returns(cal) {
+					for _, res := range r.Results {
+						for w := range eng.Slice(res, nil) {
+							if sl, ok := w.(*ssa.Slice); ok && sl.Pos() == pos {
+								bad = append(bad, eng.FuncName(cal)+" returns a prefix of the overlap (cut at "+c.P.Pos(pos)+")")
+							}
+						}
+					}
+				}
+			}
+		}
+	})
+	c.Check(len(bad) == 0, R, eng.FuncName(fn)+"#prefix", fn.Pos(), "no prefix of the overlap is handed on", strings.Join(dedupStr(bad), "; ")+": what is prepended to the next chunk is then text from the middle of the previous chunk")
+	// (2) loops over the sentences that can stop early count down
+	n := 0
+	for _, b := range fn.Blocks {
+		for _, in := range b.Instrs {
+			ph, ok := in.(*ssa.Phi)
+			if !ok {
+				break
+			}
+			// an index of the sentence list
+			indexes := false
+			for _, r := range *ph.Referrers() {
+				if ia, ok := r.(*ssa.IndexAddr); ok && ia.Index == ssa.Value(ph) {
+					indexes = true
+				}
+				if bo, ok := r.(*ssa.BinOp); ok && bo.Op == token.ADD && bo.X == ssa.Value(ph) {
+					for _, rr := range *bo.Referrers() {
+						if ia, ok := rr.(*ssa.IndexAddr); ok && ia.Index == ssa.Value(bo) {
+							indexes = true
+						}
+					}
+				}
+			}
+			if !indexes {
+				continue
+			}
+			step := int64(0)
+			for _, e := range ph.Edges {
+				if bo, ok := e.(*ssa.BinOp); ok && bo.X == ssa.Value(ph) {
+					if k, isC := eng.ConstInt(bo.Y); isC {
+						if bo.Op == token.ADD {
+							step = k
+						} else if bo.Op == token.SUB {
+							step = -k
+						}
+					}
+				}
+			}
+			if step == 0 {
+				continue
+			}
+			body := loopBody(b)
+			early := false
+			for x := range body {
+				if x == b {
+					continue
+				}
+				for _, y := range x.Succs {
+					if !body[y] {
+						early = true
+					}
+				}
+			}
+			if !early {
+				continue
+			}
+			n++
+			c.Check(step < 0, R, fmt.Sprintf("%s#loop@%s", eng.FuncName(fn), c.P.Pos(ph.Pos())), ph.Pos(), "the loop that stops when the limit is reached starts at the last sentence", "the sentences are taken from the first one on until the limit is reached: the ones next to the chunk boundary are dropped and the kept text is not the end of the previous chunk")
+		}
+	}
+	if n == 0 {
+		c.Ok(R, eng.FuncName(fn)+"#loop", fn.Pos(), "not evaluated: no early-exit loop over an indexed list in the function")
+	}
+}
